@@ -18,13 +18,13 @@ P = {
 
 P.update({
  "C04": dict(engine="histx", technique="exhaustive operation-history exploration (all op sequences to a depth bound x buffer capacity classes) of real buffers/messages against a pure model",
-             text="For the 4 frame types with a computed length x every registered body key (Z, D+stale, L bodies) + nil body: every sequence of <=3 (quick) / <=5 (thorough) operations from {ENC x3, SKIP x2, JUNK x2, RESET} x 7 buffer capacity classes is replayed on fresh real objects; after every operation the buffer and the message object are compared with a model in which the length field equals the number of body bytes.",
+             text="For the 4 frame types with a computed length x every registered body key (Z, D+stale, L bodies) + nil body: every sequence of <=3 (quick) / <=5 (thorough) operations from {ENC x3, SKIP x2, JUNK x2, RESET} x 10 buffer capacity classes (incl. caller-owned slices and mostly-consumed buffers whose growth slides the data in place), plus a >64 KiB body scenario, is replayed on fresh real objects; after every operation the buffer and the message object are compared with a model in which the length field equals the number of body bytes.",
              note="model ENC transition = unread ++ EncodeRef(m); consumed bytes are not observable", ref="4 C04"),
  "C05": dict(engine="histx", technique="exhaustive operation-history exploration against a pure model with independent bitwise checksum references",
              text="Same histories as C04 for the 3 checksummed frame types; the trailer on the wire and frame.Checksum must equal an independent byte-sum / CRC-32 over exactly this frame's bytes after the length patch, in every prior buffer state reached by the histories.",
              note="independent checksum implementations in engine/refmodel", ref="4 C05"),
  "C06": dict(engine="histx", technique="exhaustive operation-history exploration (append-only / context-free / repeatable oracle)",
-             text="Every one of the 170 types as a single-type scenario (plus nil-extension and long variants and all frame scenarios): all operation sequences to depth 3/4 (frames 3/5) over {ENC(m0),ENC(m1),SKIP,SKIP,JUNK,RESET} x 3 capacity classes; after each ENC the unread buffer must be prior ++ EncodeRef(m) with prior bytes identical; re-encoding the same object appends the same bytes.",
+             text="Every one of the 170 types as a single-type scenario (plus nil-extension and long variants and all frame scenarios): all operation sequences to depth 3/4 (frames 3/5) over {ENC(m0),ENC(m1),SKIP,SKIP,JUNK(1 byte),JUNK(5000 bytes),RESET} x 4 capacity classes; after each ENC the unread buffer must be prior ++ EncodeRef(m) with prior bytes identical; re-encoding the same object appends the same bytes.",
              note="model ENC transition = unread ++ EncodeRef(m)", ref="4 C06"),
  "C07": dict(engine="histx", technique="exhaustive enumeration of encode/tail/decode histories on real buffers against the reference decoder",
              text="Per type: every tuple of <=3 (4) encodes of {Z,D,L,other-body} messages into one buffer x 5 tails, followed by as many decodes, plus all free sequences to depth 3 (4) over {ENC,ENC,JUNK,JUNK,DEC,SKIP}; each decode must consume exactly the message, yield the original and leave the rest byte-identical.",
@@ -48,28 +48,28 @@ P.update({
 
 P.update({
  "C12": dict(engine="table-explorer", technique="exhaustive enumeration of discriminator tables: every registered key in three modes, complete unregistered key spaces (all u16, all <=2-byte strings, 3-byte alphabet / all 2^24, all 2^32 in thorough)",
-             text="18 tables x 226 keys through the factory, a full Decode and nil-body Encode must give exactly the pinned body type and reference bytes; unregistered keys (complete small spaces; structured alphabet for 32-bit tables in quick, all 2^32 through the factory in thorough) must give an error, no panic and no body.",
+             text="18 tables x 226 keys through the factory, a full Decode into a fresh receiver and into a reused receiver holding another registered body, and nil-body Encode must give exactly the pinned body type and reference bytes; unregistered keys (registered keys decorated with white space/NUL; complete small spaces; structured alphabet for 32-bit tables in quick, all 2^32 through the factory in thorough) must give an error, no panic and no body.",
              note="pinned key->type map in schema/pinned; full-Decode sweeps of unregistered keys use the 17-byte alphabet", ref="4 C12"),
  "C13": dict(engine="primitive-sweep", technique="exhaustive primitive sweep: widths x pad bytes x sides x all strings <=2 bytes (+ alphabet strings), scalar/default/list variants",
              text="Widths {0..4} x pad bytes (8 in quick incl. 0x80,0xC2,0xFF; all 256 in thorough) x both sides x all 65,793 strings of <=2 bytes and longer alphabet strings, widths 8 and 120 over structured members: written bytes equal the cut/pad spec, read strips only the pad byte from the pad side and consumes exactly N bytes.",
              note="specification of pad/cut/strip is refmodel.FixText/StripText", ref="4 C13"),
  "C14": dict(engine="sumx", technique="checksum-automaton exploration: all short inputs, all (state,byte) transitions via witnesses, long uniform/ramp families for hidden-state overflow",
-             text="4 services x all strings <=2 (quick) / <=3 (thorough) bytes, CRC16 and byte-sum automata, long uniform runs up to 32 MiB around the 2^31 accumulator boundary, ramps/alternations at 2^k+-1; each on a partially consumed buffer, checking value vs bitwise reference, range, purity and repeatability.",
+             text="4 services x all strings <=2 (quick) / <=3 (thorough) bytes, CRC16 and byte-sum automata, long uniform runs up to 32 MiB around the 2^31 accumulator boundary, ramps/alternations at 2^k+-1, every length 4..1200 (9000) for three patterns; each on a partially consumed buffer, checking value vs bitwise reference, range, purity and repeatability.",
              note="bitwise reference implementations self-checked against published check values; CRC32 beyond 3 bytes covered by families only", ref="4 C14"),
  "C15": dict(engine="receiver-bfs", technique="exhaustive receiver-history exploration: all decode-event sequences to depth 2 into one receiver from clean and hand-dirtied starts, differential against a fresh receiver",
-             text="Per type: valid wires (structural deviations, every key) and failing truncations as events; every sequence of <=2 events into one receiver from 2-4 starting states, then every valid wire into it and into a fresh receiver; results must be equal.",
+             text="Per type: valid wires (structural deviations, every key) and failing truncations as events; every sequence of <=2 events into one receiver from 2-7 starting states (fresh, hand-dirtied, key/body mismatch), then every valid wire into it and into a fresh receiver; results must be equal.",
              note="no hand-written expected value: differential oracle dirty vs fresh", ref="4 C15"),
  "C17": dict(engine="valenum", technique="bounded-exhaustive value enumeration over unrestricted alphabets incl. nil parts and unregistered keys, panic monitor",
              text="Per type: zero value, constructor result, V1 (V2 thorough) over unrestricted alphabets (over-long text, 65,536-element lists, nil nested pointers, nil bodies with every registered key) and nil bodies with the unregistered-key alphabet; Encode must return without panicking.",
              note="nil list elements and typed-nil interface values are excluded as the property says", ref="4 C17"),
  "C18": dict(engine="primitive-sweep+valenum", technique="exhaustive sweep of lengths around every 8/16-bit prefix limit for every prefixed writer; message-level over-long members",
-             text="Every prefixed writer instantiation with a u8 prefix x all lengths 0..600 and with a u16 prefix x lengths around 65,535/131,071 (BE and LE, counts and per-element lengths); every message type x V1 with over-long members: too long => error, fits => success, reference bytes and read-back.",
+             text="Every prefixed writer instantiation with a u8 prefix x all lengths 0..600 and with a u16 prefix x lengths around 65,535/131,071 (BE and LE, counts and per-element lengths), ASCII and 3-byte-character texts; every message type x V1 with over-long members: too long => error, fits => success, reference bytes and read-back.",
              note="u32/u64 prefixes would need >= 4 GiB values: not attempted", ref="4 C18"),
 })
 
 P.update({
  "C19": dict(engine="schedx", technique="stateless model checking of the real registry under a controlled scheduler: all interleavings at visible operations (locks, accesses to package-level state), linearizability by brute force against a map model, vector-clock happens-before race monitor",
-             text="The real codec registry, instrumented through a build overlay (scheduling points at every lock operation and before every statement touching the registry's fields, R/W events), is run under our scheduler for 8,244 scenarios (2 threads x <=2 ops, 3 threads x 1 op, 8-op alphabet, 3 initial states): every interleaving is executed (6.5M schedules; 12 scenarios to preemption bound 2); each execution's call/return history plus final look-ups must be linearizable w.r.t. a plain map, free of happens-before races and deadlocks. A free-running -race pass of the same operations is an adjunct only.",
+             text="The real codec registry, instrumented through a build overlay (scheduling points at every lock operation and before every statement touching the registry's fields, R/W events), is run under our scheduler for 8,244 scenarios (2 threads x <=2 ops, 3 threads x 1 op, 8-op alphabet, 3 initial states): every interleaving is executed (6.5M schedules; 12 scenarios to preemption bound 2); each execution's call/return history plus final look-ups must be linearizable w.r.t. a plain map (decided by brute force and, independently, by porcupine), free of happens-before races and deadlocks. A free-running -race pass of the same operations is an adjunct only.",
              note="scheduling granularity = visible operations (validated: statement-granularity exploration yields the same 16,464 distinct outcomes); memory effects below happens-before not modelled", ref="3.5, 4 C19"),
  "C20": dict(engine="schedx", technique="sequential global-state invariant (deep hash of all package-level variables around every call) + preemption-bounded schedule exploration of independent Encode/Decode pairs on the instrumented build with an HB race monitor",
              text="(a) Every Encode/Decode over V1 of all 170 types leaves a deep hash of all 20 package-level variables unchanged; (b) two threads running Encode+Decode of different values of the same type (all 170 self-pairs; cross-protocol and 3-thread frame scenarios in thorough) under the controlled scheduler, all schedules with <=1 preemption (quick) / <=2 (thorough) at statement granularity: per-thread results equal the sequential ones, no HB race on package-level state, no deadlock.",
